@@ -13,7 +13,7 @@ func init() {
 	propFuncs["C02"] = propC02
 	propInfos["C02"] = &PropInfo{
 		Level:   "other",
-		Explain: "Structural necessary conditions decided statically (DESIGN.md §5 C02): decision lists of PMF/CDF (0 below zero, 1 from N1*N2 upward, 0 above the support); tied branch: CDF = A(⌊2U⌋)/Choose(N1+N2,N1), PMF = (A(⌊2U⌋)-A(⌊2U⌋-1))/Choose(N1+N2,N1) with A(j) = makeUmemo(j,N1,T)[len T][ukey{N1,j}] (the same j passed and looked up); untied branch: PMF = p(⌊U⌋)[⌊U⌋], CDF's flip condition, flipped index N1N2-Ui-1 and 1-Σ (mirror identity), Σ as a recurrence over p(Ui)[:Ui+1]; the Mann–Whitney recurrence out[U] = (n·lp[U-m] + m·rp[U])/(n+m) in UDist.p with lp=memo[n-1], rp = memo[n] or memo[m-1]; in makeUmemo the coefficient recurrence a[k], sibling agreement of the top-down key discovery and the bottom-up fill on (n1', twoU', rk range), the K=2 base case term and its floor-divided bound, the step term with the saturation value; D-floor on every int conversion/division; Step()=0.5, Bounds()=(0,N1·N2); order independence of the three map ranges is decided under C20 (A-5).",
+		Explain: "Structural necessary conditions decided statically (DESIGN.md §5 C02): decision lists of PMF/CDF (0 below zero, 1 from N1*N2 upward, 0 above the support); tied branch: CDF = A(⌊2U⌋)/Choose(N1+N2,N1), PMF = (A(⌊2U⌋)-A(⌊2U⌋-1))/Choose(N1+N2,N1) with A(j) = makeUmemo(j,N1,T)[len T][ukey{N1,j}] (the same j passed and looked up); untied branch: PMF = p(⌊U⌋)[⌊U⌋], CDF's flip condition, flipped index N1N2-Ui-1 and 1-Σ (mirror identity), Σ as a recurrence over p(Ui)[:Ui+1]; the Mann–Whitney recurrence out[U] = (n·lp[U-m] + m·rp[U])/(n+m) in UDist.p with lp=memo[n-1], rp = memo[n] or memo[m-1]; in makeUmemo the coefficient recurrence a[k], sibling agreement of the top-down key discovery and the bottom-up fill on (n1', twoU', rk range), the K=2 base case term and its floor-divided bound, the step term with the saturation value; D-floor on every int conversion/division; Step()=0.5, Bounds()=(0,N1·N2); order independence of the three map ranges is decided under C20 (A-5). Added after the mutation sweep (DESIGN §13): hasTies as a first-hit scan for t > 1; table sizes of p; in makeUmemo every rank gone through in all passes, the running sum equal to the prefix sum by induction, the attainable-range filter, the source table of the keys; tied PMF/CDF panic only on a missing entry.",
 		Assume:  []string{"A4 reals", "preconditions: N1,N2 >= 0, tie counts >= 0"},
 		Undec:   []string{"that the recurrences count subsets correctly (the combinatorial values)", "monotonicity and sum-to-one of the computed floats", "mirror symmetry between (N1,N2,T) and (N2,N1,T)"},
 	}
